@@ -21,7 +21,7 @@ from dv import trees as T
 from dv import c12_graph as G
 from dv import c12_build as B
 
-HEADER = "From DV Require Import Model.PyPrims Model.C12Model.\nFrom Coq Require Import ZArith. Open Scope Z_scope."
+HEADER = "From DV Require Import Model.PyPrims Model.C12Model Model.C12Spec2.\nFrom Coq Require Import ZArith. Open Scope Z_scope."
 
 MAX_NODES = 60
 
@@ -111,6 +111,12 @@ def gen_case(rng, big=False):
             else:
                 seqs.append([k, [rng.randrange(-1024, 4096) for _ in range(nch)]])
         case["seqs"] = seqs
+    # a namespace with a history (sorted / reversed / a non-final taxon removed after accession)
+    if rng.random() < 0.3:
+        hist = []
+        for _ in range(rng.choice([1, 1, 2])):
+            hist.append(rng.choice([["sort_rev"], ["reverse"], ["remove", rng.randrange(8)]]))
+        case["ns"]["history"] = hist
     # decorations
     tg = _targets(case, rng)
     deco = []
@@ -142,7 +148,7 @@ def gen_case(rng, big=False):
                 deco.append(["ann", ["ann", d[1], 0], "sub", _gen_val(rng, [])])
     if kind in ("tree", "treelist"):
         for ti in range(len(case["trees"])):
-            if rng.random() < 0.35:
+            if rng.random() < (0.7 if case["ns"].get("history") else 0.35):
                 deco.append(["encode", ti, rng.random() < 0.5])
     elif kind != "ns":
         if rng.random() < 0.4:
@@ -294,6 +300,7 @@ def observe(case):
         sumS.pop("ns", None)
         sumC.pop("ns", None)
     obs["members_same"] = _members_same(root, cp) if shallow else None
+    obs["ns_index"] = B.ns_index_report(root, cp)
     obs["summary_src_unchanged"] = (B.summary(root) == sum0)
     obs["summary_equal"] = (sumS == sumC)
     if sumS != sumC:
@@ -458,6 +465,10 @@ def oracle(case, obs):
     if obs["seeds_missing_from_copy"] and depth != "deep":
         return ("%s: the copy does not reference the source's namespace/taxa/members it is documented to share (oids %s)"
                 % (tag, obs["seeds_missing_from_copy"]), "not-sharing-namespace:%s:%s" % (kind, _route_class(route)))
+    if obs.get("ns_index"):
+        return ("%s: the copy's namespace does not give the copied taxa the accession indices / bitmasks they have in the "
+                "source's namespace (bipartition bitmasks carried over to the copy name other taxa): %s"
+                % (tag, "; ".join(obs["ns_index"][:3])), "copied-namespace-taxon-bit-assignment:%s" % _route_class(route))
     if depth == "shallow" and not obs["members_same"]:
         return ("%s: the members of the shallow copy are not the members of the source" % tag, "shallow-members:%s" % kind)
     if obs["twin"] and (obs["bound"] or not obs["summary_equal"]):
@@ -686,6 +697,111 @@ def exhaustive_cases(rng):
                                                      ["ann_add", ["tree", 0], "later", ["int", 3]]])}}
 
 
+SHEADER = ("From DV Require Import Model.PyPrims Model.C12Model Model.C12Spec2 Model.C12Shallow.\n"
+           "From Coq Require Import ZArith. Open Scope Z_scope.")
+
+
+def shallow_route(case, obs):
+    """the route of Model/C12Shallow.v a case exercises (None: not a modelled shallow route)"""
+    kind, route = case["type"], case["route"]
+    if B.depth_of(kind, route) != "shallow" or case.get("via_ctor"):
+        return None
+    if kind == "ns":
+        return "SNsCopy"
+    if kind == "treelist":
+        return "(SShallow treelist_template)"
+    if kind == "continuous":
+        return "(SShallow cont_matrix_template)"
+    if kind == "dna":
+        return "(SShallow matrix_template)"
+    # StandardCharacterMatrix.__init__ installs a brand-new state alphabet (known finding): not modelled
+    return None
+
+
+def to_coq_shallow(case, obs):
+    clsid = dict(FIXED_CLS)
+    nf = "true" if none_target_ok() else "false"
+    route = shallow_route(case, obs)
+    if "h0" not in obs or route is None:
+        return "(mkSCase [] 0 SNsCopy (ESkip []) %s)" % nf
+    heap = "[%s]" % "; ".join(_cobj(o, clsid) for o in obs["h0"])
+    cp = obs["copy"]
+    news = "[%s]" % "; ".join(_cobj(o, clsid) for o in obs.get("h1new", []))
+    if cp[0] == "Err":
+        expect = "(EErr %s)" % (cp[1] if cp[1] in ("KeyErr", "AttrErr", "TypeErr", "IndexErr", "ValueErr", "RecursionErr") else "OtherErr")
+    else:
+        expect = "(EOk (%s) %s)" % (_cv(_pv(cp[1])), news)
+    return "(mkSCase %s %d %s %s %s)" % (heap, obs["root_oid"], route, expect, nf)
+
+
+def shallow_stage(ctx, cases, observe_fn, shard):
+    """second wave: the shallow routes (copy.copy / clone(0) of TreeList and CharacterMatrix, TaxonNamespace
+    copy construction) against Model/C12Shallow.v"""
+    sel = []
+    for c in cases:
+        if B.depth_of(c["type"], c["route"]) == "shallow" and not c.get("via_ctor"):
+            sel.append(c)
+    terms = []
+    kept = []
+    for c in sel:
+        obs = observe_fn(c)
+        r = shallow_route(c, obs)
+        if r is None or "h0" not in obs:
+            ctx.count("shallow-route:not-modelled(%s)" % c["type"])
+            continue
+        ctx.count("shallow-route:%s" % c["type"])
+        terms.append(to_coq_shallow(c, obs))
+        kept.append((c, obs))
+    if not terms:
+        return
+    bad, errors = core.run_cases(ctx.pid, SHEADER, "scase_ok", terms, shard=shard, tag="_shal")
+    ctx.obligation("shallow routes: model evaluates all %d cases (vm_compute)" % len(terms), not errors)
+    for e in errors:
+        ctx.notes.append(e[:1500])
+    if errors:
+        ctx.violation("shallow-route cases could not be evaluated by the model", {"errors": [e[:1500] for e in errors]}, no_input=True)
+        return
+    ctx.obligation("shallow routes: model = implementation, hypotheses hold, on %d cases" % len(terms), not bad)
+    if bad:
+        case, obs = kept[bad[0]]
+        shown = core.show_cases(ctx.pid, SHEADER, "scase_run", [terms[i] for i in bad[:2]])
+        ctx.violation("shallow routes: model (Model/C12Shallow.v) and implementation disagree on %d case(s)" % len(bad),
+                      {"correspondence": "shallow", "first_disagreeing_case": case, "implementation_observed": _slim(obs),
+                       "model_computed": shown, "n_disagreements": len(bad)}, no_input=True)
+
+
+def iso_hypotheses(ctx, kept, shard):
+    """second wave: on how many cases do the extra hypotheses (wf_heap3s) of the image theorems
+    (deepcopy_image_onto_and_total, scoped_shares_every_reachable_seed) hold?  They are expected to fail
+    exactly on copy-constructed sources (known finding ctor-copy-hidden-twin: the owned AnnotationSet's
+    target is the hidden twin) and on matrices with per-cell annotation sets (AnnotationSets that are not
+    the `_annotations` of their target); anything else is reported."""
+    run = [(c, t) for c, t in kept if "(ESkip" not in t]
+    if not run:
+        return
+    bad, errors = core.run_cases(ctx.pid, HEADER, "case_iso_hyp", [t for _, t in run], shard=max(shard, 100), tag="_isoh")
+    ctx.obligation("image-theorem hypotheses evaluated on %d cases (vm_compute)" % len(run), not errors)
+    for e in errors:
+        ctx.notes.append(e[:1500])
+    if errors:
+        return
+    ctx.count("image-hypotheses:hold", len(run) - len(bad))
+    unexpected = []
+    for i in bad:
+        c = run[i][0]
+        if c.get("via_ctor"):
+            ctx.count("image-hypotheses:fail(copy-constructed source)")
+        elif any(d[0] == "cell_ann" for d in c.get("deco", [])):
+            ctx.count("image-hypotheses:fail(per-cell annotation sets)")
+        else:
+            unexpected.append(c)
+    ctx.obligation("image-theorem hypotheses fail only on copy-constructed sources and per-cell annotation sets", not unexpected)
+    if unexpected:
+        ctx.violation("the hypotheses wf_heap3s of the image theorems fail on a dumped heap that is neither a "
+                      "copy-constructed source nor a matrix with per-cell annotation sets (%d cases)" % len(unexpected),
+                      {"case": unexpected[0]}, no_input=True)
+
+
 def run(tier, seed, replay=None):
     ctx = core.Ctx("C12", tier, seed)
     ctx.assumptions = [
@@ -704,7 +820,8 @@ def run(tier, seed, replay=None):
         print("oracle:", oracle(case, obs))
         print(json.dumps(_slim(obs), default=str)[:3000])
         return 0
-    ok = core.proof_stage(ctx, ["Props/C12.vo"])
+    # C12 uses no translated (coq/Gen) file: translator failures on other properties' sources are not C12 obligations
+    ok = core.proof_stage(ctx, ["Props/C12.vo"], gen_needed=("C12",))
     if not ok:
         core.broken_proof(ctx, search)
     n = 300 if tier == "quick" else 10000
@@ -718,9 +835,19 @@ def run(tier, seed, replay=None):
     def obs_cached(case):
         return observe(case)
 
-    core.corr_stage(ctx, cases, obs_cached, to_coq, HEADER, "case_ok2",
+    kept = []
+
+    def to_coq_kept(case, obs):
+        t = to_coq(case, obs)
+        kept.append((case, t))
+        return t
+
+    shard = 40 if tier == "quick" else 125
+    core.corr_stage(ctx, cases, obs_cached, to_coq_kept, HEADER, "case_ok3",
                     oracle=lambda c, o: oracle(c, o), show_fn="case_run", nontrivial=nontrivial,
-                    search=search, shard=40 if tier == "quick" else 125, sample_fn=sample_fn)
+                    search=search, shard=shard, sample_fn=sample_fn)
+    iso_hypotheses(ctx, kept, shard)
+    shallow_stage(ctx, cases, obs_cached, max(shard, 100))
     return ctx.finish(level="proof",
                       rule="random decorated trees (<=60 nodes), tree lists, DNA/standard/continuous matrices and namespaces; "
                            "every copy route; one random later mutation on either side; thorough adds every tree shape with "
